@@ -6,9 +6,12 @@ open Trace
 (* Diff = model and implementation disagree (broken tie); Viol = a property oracle evaluated on the
    implementation's trace failed: (kind, detail) *)
 type result = Ok_ | Diff of string | Skip | Viol of string * string
+  | Skipped of string   (* not run on purpose (size limit): reported as `K <id> <unit> SKIP <why>`, never silent *)
 
 let units : (string * (case -> result)) list ref = ref []
 let register l = units := !units @ l
+(* units run on the cases the implementation PANICKED on (only CFG / INPUT / PANIC of the trace are meaningful) *)
+let panic_units : (string * (case -> result)) list ref = ref []
 let commands : (string * (string -> unit)) list ref = ref []
 
 let state c lab = try Some (List.assoc lab c.states) with Not_found -> None
